@@ -14,6 +14,11 @@ type unitSpec struct {
 	// parameter of the generated definitions).  Pure lists its read-only methods; every other method is
 	// translated as a mutator `state -> args -> state * result`.
 	Abstract map[string]absSpec
+	// StructFiles: further files of the package read for their TYPE declarations only (the struct of a file that
+	// only contains methods).  External: methods of such a struct that are NOT translated but called: they
+	// become parameters `<Struct>_ext_<name> : Struct -> args -> Struct * result` (true) / `-> result` (false = read-only)
+	StructFiles []string
+	External    map[string]bool
 	// Opaque: receiver struct types of this file that are ABSTRACT (linked structures declared elsewhere in the
 	// package): type name -> interface.  Their methods are translated as functions taking the abstract value
 	// as first parameter; "lit.empty" is the composite literal &T{} , "Iterator" the enumeration.
@@ -34,7 +39,7 @@ type absSpec struct {
 }
 
 var whitelist = []unitSpec{
-	{GoFile: "queues/circularbuffer/circularbuffer.go", Module: "RingGen",
+	{GoFile: "queues/circularbuffer/circularbuffer.go", Module: "RingGen", ExtraFiles: []string{"queues/circularbuffer/serialization.go"},
 		Skip: map[string]string{"String": "uses fmt / strings (text formatting is not modelled)"}},
 	{GoFile: "queues/circularbuffer/iterator.go", Module: "RingIterGen"},
 
@@ -47,37 +52,45 @@ var whitelist = []unitSpec{
 	{GoFile: "queues/arrayqueue/iterator.go", Module: "ArrayQueueIterGen"},
 
 	// thin wrappers: every method except String / the constructors; the wrapped container is an abstract interface
-	{GoFile: "stacks/arraystack/arraystack.go", Module: "ArrayStackWrapGen", Skip: wrapSkip, Abstract: listAbs},
-	{GoFile: "queues/arrayqueue/arrayqueue.go", Module: "ArrayQueueWrapGen", Skip: wrapSkip, Abstract: listAbs},
-	{GoFile: "stacks/linkedliststack/linkedliststack.go", Module: "LinkedListStackWrapGen", Skip: wrapSkip, Abstract: sllAbs},
-	{GoFile: "queues/linkedlistqueue/linkedlistqueue.go", Module: "LinkedListQueueWrapGen", Skip: wrapSkip, Abstract: sllAbs},
+	{GoFile: "stacks/arraystack/arraystack.go", Module: "ArrayStackWrapGen", Skip: wrapSkip, Abstract: listAbs, ExtraFiles: []string{"stacks/arraystack/serialization.go"}},
+	{GoFile: "queues/arrayqueue/arrayqueue.go", Module: "ArrayQueueWrapGen", Skip: wrapSkip, Abstract: listAbs, ExtraFiles: []string{"queues/arrayqueue/serialization.go"}},
+	{GoFile: "stacks/linkedliststack/linkedliststack.go", Module: "LinkedListStackWrapGen", Skip: wrapSkip, Abstract: sllAbs, ExtraFiles: []string{"stacks/linkedliststack/serialization.go"}},
+	{GoFile: "queues/linkedlistqueue/linkedlistqueue.go", Module: "LinkedListQueueWrapGen", Skip: wrapSkip, Abstract: sllAbs, ExtraFiles: []string{"queues/linkedlistqueue/serialization.go"}},
 	// the ArrayList core, with capacity-aware slices (GoSlice.v)
-	{GoFile: "lists/arraylist/arraylist.go", Module: "ArrayListCoreGen", CapSlices: true,
+	{GoFile: "lists/arraylist/arraylist.go", Module: "ArrayListCoreGen", CapSlices: true, ExtraFiles: []string{"lists/arraylist/serialization.go"},
 		Skip: map[string]string{"String": skipFmt, "Sort": "takes a comparator and calls slices.SortFunc (sorting is property C09's model)"}},
 	// Go maps (GoMap.v); range over a map visits the entries in the order of the parameter map_order
-	{GoFile: "maps/hashmap/hashmap.go", Module: "HashMapGen", Skip: map[string]string{"String": skipFmt}},
-	{GoFile: "sets/hashset/hashset.go", Module: "HashSetGen", Skip: map[string]string{"String": skipFmt}},
+	{GoFile: "maps/hashmap/hashmap.go", Module: "HashMapGen", Skip: map[string]string{"String": skipFmt}, ExtraFiles: []string{"maps/hashmap/serialization.go"}},
+	{GoFile: "sets/hashset/hashset.go", Module: "HashSetGen", Skip: map[string]string{"String": skipFmt}, ExtraFiles: []string{"sets/hashset/serialization.go"}},
 	// table (Go map) + ordering (abstract doubly linked list); Iterator() is an abstract enumeration
-	{GoFile: "sets/linkedhashset/linkedhashset.go", Module: "LinkedHashSetGen", Skip: enumSkip, ExtraFiles: []string{"sets/linkedhashset/enumerable.go"},
+	{GoFile: "sets/linkedhashset/linkedhashset.go", Module: "LinkedHashSetGen", Skip: enumSkip, ExtraFiles: []string{"sets/linkedhashset/enumerable.go", "sets/linkedhashset/serialization.go"},
 		Abstract: dllOrdering},
 	{GoFile: "maps/linkedhashmap/linkedhashmap.go", Module: "LinkedHashMapGen", Skip: enumSkip, ExtraFiles: []string{"maps/linkedhashmap/enumerable.go"},
 		Abstract: dllOrdering},
 	// red-black tree wrappers: the tree is an abstract interface (instantiated with the machine's model of it)
-	{GoFile: "maps/treemap/treemap.go", Module: "TreeMapGen", Skip: enumSkip, ExtraFiles: []string{"maps/treemap/enumerable.go"}, Abstract: rbtAbs},
-	{GoFile: "sets/treeset/treeset.go", Module: "TreeSetGen", Skip: enumSkip, ExtraFiles: []string{"sets/treeset/enumerable.go"}, Abstract: rbtAbs},
+	{GoFile: "maps/treemap/treemap.go", Module: "TreeMapGen", Skip: enumSkip, ExtraFiles: []string{"maps/treemap/enumerable.go", "maps/treemap/serialization.go"}, Abstract: rbtAbs},
+	{GoFile: "sets/treeset/treeset.go", Module: "TreeSetGen", Skip: enumSkip, ExtraFiles: []string{"sets/treeset/enumerable.go", "sets/treeset/serialization.go"}, Abstract: rbtAbs},
 	// bidirectional maps: two abstract maps / trees
-	{GoFile: "maps/hashbidimap/hashbidimap.go", Module: "HashBidiMapGen", Skip: map[string]string{"String": skipFmt},
+	{GoFile: "maps/hashbidimap/hashbidimap.go", Module: "HashBidiMapGen", Skip: map[string]string{"String": skipFmt}, ExtraFiles: []string{"maps/hashbidimap/serialization.go"},
 		Abstract: map[string]absSpec{"forwardMap": hmapSpec, "inverseMap": hmapSpec}},
-	{GoFile: "maps/treebidimap/treebidimap.go", Module: "TreeBidiMapGen", Skip: enumSkip, ExtraFiles: []string{"maps/treebidimap/enumerable.go"},
+	{GoFile: "maps/treebidimap/treebidimap.go", Module: "TreeBidiMapGen", Skip: enumSkip, ExtraFiles: []string{"maps/treebidimap/enumerable.go", "maps/treebidimap/serialization.go"},
 		Abstract: map[string]absSpec{"forwardMap": rbtSpec, "inverseMap": rbtSpec}},
 	// enumerable.go of the three lists: the list itself is an opaque (abstract) receiver
 	{GoFile: "lists/arraylist/enumerable.go", Module: "ArrayListEnumGen", Skip: enumOnlySkip, Opaque: listOpaque},
-	{GoFile: "lists/singlylinkedlist/enumerable.go", Module: "SinglyLinkedListEnumGen", Skip: enumOnlySkip, Opaque: listOpaque},
-	{GoFile: "lists/doublylinkedlist/enumerable.go", Module: "DoublyLinkedListEnumGen", Skip: enumOnlySkip, Opaque: listOpaque},
-	{GoFile: "queues/priorityqueue/priorityqueue.go", Module: "PriorityQueueWrapGen",
+	{GoFile: "lists/singlylinkedlist/enumerable.go", Module: "SinglyLinkedListEnumGen", Skip: enumOnlySkip, Opaque: linkedOpaque, ExtraFiles: []string{"lists/singlylinkedlist/serialization.go"}},
+	{GoFile: "lists/doublylinkedlist/enumerable.go", Module: "DoublyLinkedListEnumGen", Skip: enumOnlySkip, Opaque: linkedOpaque, ExtraFiles: []string{"lists/doublylinkedlist/serialization.go"}},
+	// serialization.go of the three trees: the tree is an opaque receiver
+	{GoFile: "trees/redblacktree/serialization.go", Module: "RedBlackTreeJsonGen", Opaque: treeOpaque},
+	{GoFile: "trees/avltree/serialization.go", Module: "AVLTreeJsonGen", Opaque: treeOpaque},
+	{GoFile: "trees/btree/serialization.go", Module: "BTreeJsonGen", Opaque: treeOpaque},
+	{GoFile: "trees/binaryheap/serialization.go", Module: "BinaryHeapJsonGen", StructFiles: []string{"trees/binaryheap/binaryheap.go"},
+		Abstract:     map[string]absSpec{"list": {Pure: listPure, Methods: []string{"FromJSON", "Size", "ToJSON"}}},
+		IgnoreFields: map[string]string{"Comparator": "comparator function value, used only by the heap's own (external) methods"},
+		External:     map[string]bool{"bubbleDownIndex": true}},
+	{GoFile: "queues/priorityqueue/priorityqueue.go", Module: "PriorityQueueWrapGen", ExtraFiles: []string{"queues/priorityqueue/serialization.go"},
 		Skip: map[string]string{"String": skipFmt, "New": skipCtor, "NewWith": skipCtor},
-		Abstract: map[string]absSpec{"heap": {Pure: []string{"Peek", "Empty", "Size", "Values"},
-			Methods: []string{"Clear", "Empty", "Peek", "Pop", "Push", "Size", "Values"}}},
+		Abstract: map[string]absSpec{"heap": {Pure: []string{"Peek", "Empty", "Size", "Values", "ToJSON"},
+			Methods: []string{"Clear", "Empty", "FromJSON", "Peek", "Pop", "Push", "Size", "ToJSON", "Values"}}},
 		IgnoreFields: map[string]string{"Comparator": "comparator function value, only handed to the heap's constructor"}},
 }
 
@@ -87,17 +100,18 @@ const skipCtor = "constructor: only calls the wrapped container's package-level 
 var wrapSkip = map[string]string{"String": skipFmt, "New": skipCtor}
 
 // read-only methods of the list packages (arraylist, singlylinkedlist); backed by the effect table (C16)
-var listPure = []string{"Get", "Size", "Empty", "Values", "Contains", "IndexOf"}
-var listAbs = map[string]absSpec{"list": {Pure: listPure, Methods: []string{"Add", "Clear", "Empty", "Get", "Remove", "Size", "Values"}}}
-var sllAbs = map[string]absSpec{"list": {Pure: listPure, Methods: []string{"Add", "Append", "Clear", "Empty", "Get", "Prepend", "Remove", "Size", "Values"}}}
+var listPure = []string{"Get", "Size", "Empty", "Values", "Contains", "IndexOf", "ToJSON"}
+var treeOpaque = map[string]absSpec{"Tree": {Pure: []string{"Get", "Size", "Empty", "Keys", "Values"}, Methods: []string{"Clear", "Iterator", "Put"}}}
+var listAbs = map[string]absSpec{"list": {Pure: listPure, Methods: []string{"Add", "Clear", "Empty", "FromJSON", "Get", "Remove", "Size", "ToJSON", "Values"}}}
+var sllAbs = map[string]absSpec{"list": {Pure: listPure, Methods: []string{"Add", "Append", "Clear", "Empty", "FromJSON", "Get", "Prepend", "Remove", "Size", "ToJSON", "Values"}}}
 var dllOrdering = map[string]absSpec{"ordering": {Pure: listPure,
 	Methods: []string{"Add", "Append", "Clear", "Get", "IndexOf", "Prepend", "Remove", "Size", "Values", "pkg.New"}}}
 
-var hmapSpec = absSpec{Pure: []string{"Get", "Size", "Empty", "Keys", "Values"},
-	Methods: []string{"Clear", "Empty", "Get", "Keys", "Put", "Remove", "Size", "Values", "pkg.New"}}
+var hmapSpec = absSpec{Pure: []string{"Get", "Size", "Empty", "Keys", "Values", "ToJSON"},
+	Methods: []string{"Clear", "Empty", "Get", "Keys", "Put", "Remove", "Size", "ToJSON", "Values", "pkg.New"}}
 var rbtSpec = rbtAbs["tree"]
-var rbtAbs = map[string]absSpec{"tree": {Pure: []string{"Get", "Size", "Empty", "Keys", "Values", "Left", "Right", "Floor", "Ceiling"},
-	Methods: []string{"Ceiling", "Clear", "Empty", "Floor", "Get", "Keys", "Left", "Put", "Remove", "Right", "Size", "Values",
+var rbtAbs = map[string]absSpec{"tree": {Pure: []string{"Get", "Size", "Empty", "Keys", "Values", "Left", "Right", "Floor", "Ceiling", "ToJSON"},
+	Methods: []string{"Ceiling", "Clear", "Empty", "Floor", "FromJSON", "Get", "Keys", "Left", "Put", "Remove", "Right", "Size", "ToJSON", "Values",
 		"fld.Comparator", "pkg.New", "pkg.NewWith"}}}
 
 // Each(f) calls f for its side effects only, which the value model does not have; the order of the calls is the
@@ -106,3 +120,4 @@ var enumSkip = map[string]string{"String": skipFmt, "Each": "calls f only for it
 
 var enumOnlySkip = map[string]string{"Each": enumSkip["Each"]}
 var listOpaque = map[string]absSpec{"List": {Pure: listPure, Methods: []string{"Add", "Iterator", "lit.empty"}}}
+var linkedOpaque = map[string]absSpec{"List": {Pure: listPure, Methods: []string{"Add", "Clear", "Iterator", "Values", "lit.empty"}}}
